@@ -224,7 +224,7 @@ def main():
     cases = class_cases(rep.tier)
     f2 = scenrun.evaluate(rep, cases, eval_class, procs=a.procs, chunksize=2)
     scenrun.report(rep, f1 + f2, TAGS)
-    lifecycle_part(rep, a, TAGS, QUICK, THOROUGH, DEVS, quick_paths=12)
+    lifecycle_part(rep, a, TAGS, QUICK, THOROUGH, DEVS, quick_paths=12, trace_worlds=[("POP", True, False, True)], trace_num=6)
     rep.exhaustive = True
     rep.extra["rule"] = "every abstract attribute value of XCodec, every (class, structure, rotator, route, moment) case, and lifecycle paths with serialize/deserialize; non-trivial = string that looks like a literal, or non-default route"
     rep.extra["distinct_nontrivial"] = len(vals) + len(cases)
